@@ -60,10 +60,22 @@ def check_variant(prog, variant, m, text0=None):
         i0 = {}
         st0, b0, d0 = common.compiled_vs(cols, exp, text0, pred, rules0, quirk_prog=prog,
                                          info=i0)
+        i2 = {}
         if st0 != 'ok':
+            # the original itself disagrees with the reference.  If the variant agrees
+            # with it, the result depends on order / naming: C07's business.  If both
+            # disagree (or the deviation is a recorded engine quirk) it is C01/C02's.
+            if st0 == 'fail' and ':quirk:' not in (b0 or ''):
+                st2, b2, d2 = common.compiled_vs(cols, exp, text2, pred2, rules2,
+                                                 quirk_prog=None, cols_any_order=True,
+                                                 info=i2)
+                if st2 == 'ok':
+                    res.append(('fail', 'original_differs_from_variant:' + b0,
+                                'the variant agrees with the reference, the original does '
+                                'not:\n%s\n--- variant\n%s' % (d0, text2), pred, []))
+                    continue
             res.append(('inconclusive', 'base_' + (b0 or st0).split(':')[0], '', pred, []))
             continue
-        i2 = {}
         st2, b2, d2 = common.compiled_vs(cols, exp, text2, pred2, rules2, quirk_prog=None,
                                          cols_any_order=True,
                                          info=i2)
